@@ -132,7 +132,7 @@ def run(module, *, constants=None, defs=None, init="Init", next="Next", spec=Non
         with open(os.path.join(scratch, mc + ".cfg"), "w") as fh:
             fh.write("\n".join(cfg) + "\n")
 
-        cmd = ["java", "-XX:+UseParallelGC", "-Xmx" + heap]
+        cmd = ["java", "-XX:+UseParallelGC", "-Xmx" + heap, "-Xss16m"]      # deep TLC recursion (N >= 20) overflows the default 1 MB thread stack
         if depth_first:
             cmd.append("-Dtlc2.tool.queue.IStateQueue=StateDeque")
         cmd += ["-cp", JAR + ":" + DEPS, "tlc2.TLC",
@@ -164,7 +164,10 @@ def run(module, *, constants=None, defs=None, init="Init", next="Next", spec=Non
         if keep:
             shutil.copytree(scratch, keep, dirs_exist_ok=True)
         if res.violation is None and p.returncode != 0:
-            tail = "\n".join(p.stdout.splitlines()[-40:])
+            ls = p.stdout.splitlines()
+            cand = [i for i, l in enumerate(ls) if l.startswith("Error:") or "Exception" in l]
+            first = cand[0] if cand else max(0, len(ls) - 40)
+            tail = "\n".join(ls[first:first + 25] + ["..."] + ls[-15:])
             raise TLCError("TLC failed (rc=%s) on %s:\n%s" % (p.returncode, module, tail))
         return res
     finally:
